@@ -269,3 +269,91 @@ Theorem C18_http_access_never_bad : forall (uuid_of : Params.str -> option nat),
   is_hbad (fst (http_serve uuid_of sv status EAccess kvs acc egr)) = false.
 Proof. exact HttpAccess.http_access_never_bad. Qed.
 Print Assumptions C18_http_access_never_bad.
+
+(* ---- THE PARAMETER FACTORIES ARE WHAT THE CODE SAYS (Proofs/ParamGuardsTie.v): the key strings, the conversion and the
+   normalisation of every parameter, the value a parameter has when its key is absent, the ParameterException types and the
+   order of the missing / invalid parameter tests of common_parameters.cpp, route_parameters.cpp, accessibility_parameters.cpp
+   and parameters.hpp are regenerated from the CURRENT C++ sources into gen/ParamGuards.v (tools/gen_param_guards.py) on every
+   run.  A dropped `<= 0 -> -1` rewrite, an assignment turned into "assign only when positive", a renamed key, a changed
+   default, two swapped tests stop this file from compiling.
+   `PGT.key_of_str` is the key a raw string names (the table of the differential driver, ocaml/driver.ml `key_of`),
+   `PGT.keyed` applies it to a request, `PGT.g_of` reads a `common` record as the locals of the C++ factory,
+   `PGT.gres_of` maps the model's outcome (POk / PErr / PExn) to the generated one, `PGT.split1` is boost::split for a
+   one-character separator set (`split_on`), `PGT.codes_of` the character codes of a string. ---- *)
+From TrV Require Proofs.ParamGuardsTie.
+From TrV Require gen.ParamGuards.
+Module PG := TrV.gen.ParamGuards.
+Module PGT := TrV.Proofs.ParamGuardsTie.
+
+Section C18_parameter_factories_are_code.
+Import Coq.Strings.String.
+
+Theorem C18_parameter_keys_are_code :
+  PG.gen_key_time_of_trip = [PGT.codes_of "time_of_trip"%string] /\ PGT.key_of_str (PGT.codes_of "time_of_trip"%string) = KTime /\
+  PG.gen_key_time_type = [PGT.codes_of "time_type"%string] /\ PGT.key_of_str (PGT.codes_of "time_type"%string) = KTimeType /\
+  PG.gen_key_scenario_id = [PGT.codes_of "scenario_id"%string] /\ PGT.key_of_str (PGT.codes_of "scenario_id"%string) = KScenario /\
+  PG.gen_key_min_waiting_time = [PGT.codes_of "min_waiting_time"%string] /\ PGT.key_of_str (PGT.codes_of "min_waiting_time"%string) = KMinWait /\
+  PG.gen_key_max_travel_time = [PGT.codes_of "max_travel_time"%string] /\ PGT.key_of_str (PGT.codes_of "max_travel_time"%string) = KMaxTT /\
+  PG.gen_key_max_access_travel_time = [PGT.codes_of "max_access_travel_time"%string] /\
+    PGT.key_of_str (PGT.codes_of "max_access_travel_time"%string) = KMaxAcc /\
+  PG.gen_key_max_egress_travel_time = [PGT.codes_of "max_egress_travel_time"%string] /\
+    PGT.key_of_str (PGT.codes_of "max_egress_travel_time"%string) = KMaxEgr /\
+  PG.gen_key_max_transfer_travel_time = [PGT.codes_of "max_transfer_travel_time"%string] /\
+    PGT.key_of_str (PGT.codes_of "max_transfer_travel_time"%string) = KMaxTr /\
+  PG.gen_key_max_first_waiting_time = [PGT.codes_of "max_first_waiting_time"%string] /\
+    PGT.key_of_str (PGT.codes_of "max_first_waiting_time"%string) = KMaxFW /\
+  PG.gen_key_origin = [PGT.codes_of "origin"%string] /\ PGT.key_of_str (PGT.codes_of "origin"%string) = KOrigin /\
+  PG.gen_key_destination = [PGT.codes_of "destination"%string] /\ PGT.key_of_str (PGT.codes_of "destination"%string) = KDestination /\
+  PG.gen_key_alternatives = [PGT.codes_of "alternatives"%string] /\ PGT.key_of_str (PGT.codes_of "alternatives"%string) = KAlternatives /\
+  PG.gen_key_place = [PGT.codes_of "place"%string] /\ PGT.key_of_str (PGT.codes_of "place"%string) = KPlace /\
+  (forall ks, (forall k, In k PGT.all_keys -> ks <> PGT.key_name k) -> PGT.key_of_str ks = KOther).
+Proof. exact PGT.parameter_keys_are_code. Qed.
+Print Assumptions C18_parameter_keys_are_code.
+
+Theorem C18_parameter_normalisation_is_code : forall rs : Params.str -> option (option nat),
+  (forall v, PG.gen_norm_time_of_trip v = if v <? 0 then -1 else v) /\
+  (forall v, PG.gen_norm_min_waiting_time v = if v <? 0 then 0 else v) /\
+  (forall v, PG.gen_norm_max_travel_time v = if v <=? 0 then MAX_INT else v) /\
+  (forall v, PG.gen_norm_max_access_travel_time v = if v <=? 0 then MAX_INT else v) /\
+  (forall v, PG.gen_norm_max_egress_travel_time v = if v <=? 0 then MAX_INT else v) /\
+  (forall v, PG.gen_norm_max_transfer_travel_time v = if v <=? 0 then MAX_INT else v) /\
+  (forall v, PG.gen_norm_max_first_waiting_time v = if v <=? 0 then -1 else v) /\
+  (forall k old v, is_numeric_key k = true ->
+     PGT.gen_upd_of k old v = PGT.gen_norm_of k v /\ PGT.gen_norm_of k v = ParamsProofs.norm k v) /\
+  (forall k c x, is_numeric_key k = true -> PGT.gen_step_of k (PGT.g_of c) x = PGT.g_of (set_field c k x)) /\
+  PG.gen_int_conversion_is_stoi = true /\ PG.gen_int_conversion_error = E_INVALID_NUMERICAL_DATA /\
+  (forall c v, PG.gen_step_time_type (PGT.g_of c) v =
+               PGT.g_of (if list_eqb v (PGT.codes_of "1"%string) then ParamsProofs.set_fwd c false else c)) /\
+  (forall c r, PG.gen_step_scenario_id (PGT.g_of c) r =
+               PGT.g_of (match r with Some sid => ParamsProofs.set_scen c (Some sid) | None => c end)) /\
+  (forall ks v c, PG.gen_common_body stoi rs ks v (PGT.g_of c) =
+                  PGT.gres_of PGT.g_of (ParamsProofs.cstep rs (PGT.key_of_str ks) v c)).
+Proof. exact PGT.parameter_normalisation_is_code. Qed.
+Print Assumptions C18_parameter_normalisation_is_code.
+
+Theorem C18_parameter_defaults_are_code :
+  PG.gen_common_init = PGT.g_of common_default /\
+  PG.gen_common_init = {| PG.g_time := -1; PG.g_minw := 180; PG.g_maxtt := MAX_INT; PG.g_maxacc := 1200; PG.g_maxegr := 1200;
+                          PG.g_maxtr := 1200; PG.g_maxfw := 1800; PG.g_fwd := true; PG.g_scen := None |} /\
+  PG.gen_route_init = {| PG.r_origin := false; PG.r_destination := false; PG.r_alt := false |} /\
+  PG.gen_access_init = {| PG.a_place := false |}.
+Proof. exact PGT.parameter_defaults_are_code. Qed.
+Print Assumptions C18_parameter_defaults_are_code.
+
+Theorem C18_factory_check_order_is_code : forall (rs : Params.str -> option (option nat)) (so : nat -> nat),
+  (forall s n, map snd (PG.gen_common_check_rules s n) = [E_MISSING_SCENARIO; E_EMPTY_SCENARIO; E_MISSING_TIME_OF_TRIP]) /\
+  (forall st, map snd (PG.gen_route_check_rules st) = [E_MISSING_ORIGIN; E_MISSING_DESTINATION]) /\
+  (forall st, map snd (PG.gen_access_check_rules st) = [E_MISSING_PLACE]) /\
+  PG.gen_origin_invalid_error = E_INVALID_ORIGIN /\ PG.gen_destination_invalid_error = E_INVALID_DESTINATION /\
+  PG.gen_place_invalid_error = E_INVALID_PLACE /\
+  (forall v, PG.gen_origin_point_ok stod_ok (PGT.split1 PG.gen_origin_separators v) = point_ok v) /\
+  (forall v, PG.gen_destination_point_ok stod_ok (PGT.split1 PG.gen_destination_separators v) = point_ok v) /\
+  (forall v, PG.gen_place_point_ok stod_ok (PGT.split1 PG.gen_place_separators v) = point_ok v) /\
+  (forall q, PG.gen_create_common stoi rs so q = PGT.gres_of PGT.g_of (create_common rs so (PGT.keyed q))) /\
+  (forall q, PG.gen_create_route PGT.split1 stod_ok stoi rs so q =
+             PGT.gres_of (fun x : common * bool => (PGT.g_of (fst x), snd x)) (create_route rs so (PGT.keyed q))) /\
+  (forall q, PG.gen_create_access PGT.split1 stod_ok stoi rs so q =
+             PGT.gres_of PGT.g_of (create_access rs so (PGT.keyed q))).
+Proof. exact PGT.factory_check_order_is_code. Qed.
+Print Assumptions C18_factory_check_order_is_code.
+End C18_parameter_factories_are_code.
